@@ -284,6 +284,21 @@ func judge(pk []*rtp.Packet, inf []info, got []media.Pack, joinLo, joinHi int, g
 			return
 		}
 	}
+	// no hole: once replay/live delivery of video media has started, every later video media packet must follow
+	minMedia := -1
+	for _, r := range rec {
+		if inf[r].media && !carrier[r] && (minMedia < 0 || r < minMedia) {
+			minMedia = r
+		}
+	}
+	if minMedia >= 0 {
+		for i := minMedia; i < n; i++ {
+			if inf[i].media && !seen[i] {
+				fail("join gap", fmt.Sprintf("video packet %d is missing between delivered packets: %s", i, desc()))
+				return
+			}
+		}
+	}
 	// GOP
 	kfLo, kfHi := -1, -1 // most recent key-frame start certainly before / possibly before the join
 	for i := 0; i < joinHi; i++ {
@@ -433,6 +448,8 @@ func main() {
 	rep.Rule = "(a) every symbol sequence up to the tier length over the packet alphabet x every join prefix x cache_gop on/off x H.264/H.265 (and FLV tags), judged by content against the statement; (b) every schedule within the deviation bound of publisher vs joiner vs delivery; distinct = distinct (sequence, join point, record) outcomes"
 	rep.Assumptions = []string{"sequentially consistent memory", "RTP audio is not required to be part of the replayed GOP"}
 	sequential(rep)
+	flvSequential(rep)
+	flvIndependence(rep)
 	runner.Run(rep, scenarios(rep.Thorough()))
 	rep.Finish()
 }
